@@ -35,7 +35,11 @@ func main() {
 	keep := fs.Bool("keep", false, "keep the scratch directory with the SMT queries")
 	only := fs.String("only", "", "substring filter on function names (debugging)")
 	verbose := fs.Bool("v", false, "verbose")
+	level := fs.String("level", "", "evidence level for a partial claim (other); default proof when everything discharges")
 	fs.Parse(os.Args[2:])
+	if *level != "" {
+		os.Setenv("GVC_LEVEL", *level)
+	}
 	if *tier == "" {
 		*tier = "quick"
 	}
